@@ -149,3 +149,29 @@ func RoundTripString(b buffer.Buffer, v string) (format.String, int, int, error)
 	r, m, err := decode.DecodeString(b.Bytes())
 	return r, n, m, err
 }
+
+// floats
+
+func RoundTripFloat32(b buffer.Buffer, v float32) (float32, int, int, error) {
+	n, _ := encode.EncodeFloat32(b, v)
+	r, m, err := decode.DecodeFloat32(b.Bytes())
+	return r, n, m, err
+}
+
+func RoundTripFloat64(b buffer.Buffer, v float64) (float64, int, int, error) {
+	n, _ := encode.EncodeFloat64(b, v)
+	r, m, err := decode.DecodeFloat64(b.Bytes())
+	return r, n, m, err
+}
+
+func WidenFloat32To64(b buffer.Buffer, v float32) (float64, int, int, error) {
+	n, _ := encode.EncodeFloat32(b, v)
+	r, m, err := decode.DecodeFloat64(b.Bytes())
+	return r, n, m, err
+}
+
+func NarrowFloat64To32(b buffer.Buffer, v float64) (float32, int, int, error) {
+	n, _ := encode.EncodeFloat64(b, v)
+	r, m, err := decode.DecodeFloat32(b.Bytes())
+	return r, n, m, err
+}
